@@ -827,13 +827,15 @@ class DirectorHandler:
         to_check = {}
         async with self.db:
             creator = self.scheduler.get_job_step(job_i)
-            for path in tree_paths:
-                to_check.update(self.workflow.register_static_tree(creator, path))
-            to_check.update(self.workflow.declare_static_files(creator, file_paths))
+            # The patterns come first, so that a match which a step builds is reported as
+            # a glob conflict, like it is when the step declares its output after this call.
             for pattern, matches in patterns:
                 ng = NamedGlob(pattern)
                 ng.extend(matches)
                 self.workflow.register_nglob(creator, ng)
+            for path in tree_paths:
+                to_check.update(self.workflow.register_static_tree(creator, path))
+            to_check.update(self.workflow.declare_static_files(creator, file_paths))
         self._submit_to_check(to_check)
 
     @allow_rpc
